@@ -49,10 +49,12 @@ const (
 	opMergeInSlice
 	opUnpackTyped
 	opPath
+	opUnpackTwice
+	opOtherGetters
 	opKinds
 )
 
-var opNames = [...]string{"Unpack", "String", "Int", "Child+Unpack", "Has", "CountField", "GetFields", "FlattenedKeys", "Merge(shared)", "Merge({k: shared})", "Merge([shared])", "Unpack(typed)", "Child.Path"}
+var opNames = [...]string{"Unpack", "String", "Int", "Child+Unpack", "Has", "CountField", "GetFields", "FlattenedKeys", "Merge(shared)", "Merge({k: shared})", "Merge([shared])", "Unpack(typed)", "Child.Path", "Unpack(captured configs, twice)", "Bool/Uint/Float/IsDict/IsArray/PathOf"}
 
 func (o Op) String() string { return opNames[o.Kind] + "(" + o.Name + ")" }
 
@@ -60,6 +62,15 @@ type typedTarget struct {
 	A string       `config:"a"`
 	S *ucfg.Config `config:"s"`
 	O *ucfg.Config `config:"o"`
+}
+
+// capturing holds the config's own sections by reference after the first Unpack (a nil *Config
+// field is filled with the sub-config itself); the list policies in the tags decide what a
+// second Unpack into the same target does with them.
+type capturing struct {
+	S *ucfg.Config `config:"s,append"`
+	L *ucfg.Config `config:"l,prepend"`
+	O *ucfg.Config `config:"o,append"`
 }
 
 func canonCfg(c *ucfg.Config, opts []ucfg.Option) string {
@@ -148,7 +159,12 @@ func exec(shared *ucfg.Config, op Op, opts []ucfg.Option) string {
 			private, _ = ucfg.NewFrom([]interface{}{})
 			src = []interface{}{shared}
 		}
-		if err := private.Merge(src, opts...); err != nil {
+		mopts := opts
+		if len(op.Name)%3 != 1 {
+			// the reader loads the shared config "from" somewhere: the option describes the merge, not the source
+			mopts = append(append([]ucfg.Option{}, opts...), ucfg.MetaData(ucfg.Meta{Source: "reader"}))
+		}
+		if err := private.Merge(src, mopts...); err != nil {
 			return "merge error: " + errStr(err)
 		}
 		res := canonCfg(private, opts) + " | source path " + strconv.Quote(shared.Path("."))
@@ -156,6 +172,18 @@ func exec(shared *ucfg.Config, op Op, opts []ucfg.Option) string {
 		// merge left anything shared with its source, the shared config changes.
 		scribble(private, 0)
 		return res
+	case opUnpackTwice:
+		// a reload: the same target is unpacked again from the same config
+		var t capturing
+		err1 := shared.Unpack(&t, opts...)
+		first := fmt.Sprintf("%s %s %s %s", canonCfg(t.S, opts), canonCfg(t.L, opts), canonCfg(t.O, opts), errStr(err1))
+		err2 := shared.Unpack(&t, opts...)
+		return first + " | " + fmt.Sprintf("%s %s %s %s", canonCfg(t.S, opts), canonCfg(t.L, opts), canonCfg(t.O, opts), errStr(err2))
+	case opOtherGetters:
+		b, e1 := shared.Bool(op.Name, -1, opts...)
+		u, e2 := shared.Uint(op.Name, -1, opts...)
+		f, e3 := shared.Float(op.Name, -1, opts...)
+		return fmt.Sprint(b, errStr(e1), u, errStr(e2), f, errStr(e3), shared.IsDict(), shared.IsArray(), shared.PathOf(op.Name, "."))
 	case opUnpackTyped:
 		var t typedTarget
 		err := shared.Unpack(&t, opts...)
@@ -298,7 +326,7 @@ func Run(t *testing.T, r *sim.R) {
 		tk := &task{id: i, opts: w.TaskOpts(i), preempt: map[int]bool{}}
 		nops := 1 + tp.Choose(3, "n-ops")
 		for j := 0; j < nops; j++ {
-			k := tp.Weighted([]int{4, 3, 1, 2, 1, 1, 1, 2, 2, 2, 2, 2, 1}, "op-kind")
+			k := tp.Weighted([]int{4, 3, 1, 2, 1, 1, 1, 2, 2, 2, 2, 2, 1, 2, 1}, "op-kind")
 			tk.ops = append(tk.ops, Op{Kind: k, Name: names[tp.Choose(len(names), "op-name")]})
 		}
 		tasks = append(tasks, tk)
@@ -492,7 +520,7 @@ func RunRace(t *testing.T, r *sim.R) {
 		tk := rt{opts: w.TaskOpts(i)}
 		nops := 1 + tp.Choose(3, "n-ops")
 		for j := 0; j < nops; j++ {
-			k := tp.Weighted([]int{4, 3, 1, 2, 1, 1, 1, 2, 2, 2, 2, 2, 1}, "op-kind")
+			k := tp.Weighted([]int{4, 3, 1, 2, 1, 1, 1, 2, 2, 2, 2, 2, 1, 2, 1}, "op-kind")
 			tk.ops = append(tk.ops, Op{Kind: k, Name: names[tp.Choose(len(names), "op-name")]})
 		}
 		tasks = append(tasks, tk)
